@@ -12,7 +12,7 @@ import (
 	"strings"
 	"time"
 
-	"verif/harness/props"
+	props "verif/harness/gen"
 	"verif/harness/run"
 	w "verif/harness/wire"
 )
